@@ -42,6 +42,9 @@ def cases(tier, seed):
                 # a stack of full-frame exposures: every input touches every tile, three or four workers contend for each
                 # tile until the very end of the run
                 out[-1].update(stack=True, dtype="F32", par=R.choice([3, 4]), n=R.choice([5, 6, 8]), W=R.randrange(260, 500), H=R.randrange(260, 500))
+    for i in range(4 if tier == "quick" else 40):
+        out.append(dict(W=R.randrange(260, 900), H=R.randrange(260, 900), n=R.choice([3, 4, 6]), overlap=7, nanborder=0, dtype="F32", bu=R.random() < 0.5, par=R.choice([2, 3]),
+                        via="api", profile="natural", seed=R.randrange(1 << 30), kill_input=R.randrange(0, 3)))
     for i in range(6 if tier == "quick" else 80):
         out.append(dict(W=R.randrange(260, 500), H=R.randrange(260, 500), n=R.choice([5, 6, 8]), overlap=7, nanborder=0, dtype="F32", bu=R.random() < 0.5, par=R.choice([3, 4]),
                         via="api", profile=R.choice(["natural", "jitter", "slow_workers"]), seed=R.randrange(1 << 30), hostile=True, stack=True))
@@ -86,6 +89,8 @@ def cmp_fields(a, b, probs, what):
             fx, fy = float(x), float(y)
             if abs(fx - fy) <= 1e-9 * max(abs(fx), abs(fy), 1e-12):
                 continue
+            if k.lower().startswith("rotation") and abs(((fx - fy + 180.0) % 360.0) - 180.0) <= 1e-7:
+                continue  # an angle: -180 and 180 are the same rotation
         except (TypeError, ValueError):
             pass
         probs.append(("astrometry-differs", "%s: %s = %r vs %r" % (what, k, x, y)))
@@ -120,6 +125,8 @@ def run_multi_tan(spec, paths, out, par, via, log, profile):
             proc.tile(pio, parallel=par)
             b.write_index_rel_wtml()
 
+    if par > 1 and spec.get("kill_input") is not None and "piece%02d.fits" % spec["kill_input"] in [os.path.basename(x) for x in paths]:
+        instr_mp._S["kill_on_item"] = "piece%02d.fits" % spec["kill_input"]
     if par > 1:
         if spec.get("hostile"):
             # workers are descheduled between statements of toasty's tile I/O (also inside the locked region), on a clock
@@ -192,6 +199,7 @@ def run_case(spec, workdir):
     ref = (W / 2.0 + R.choice([0, 0.5, 13]), H / 2.0 + R.choice([0, -7]))
     scale = 10 ** R.uniform(-4, -2.5)
     crval = (R.uniform(0, 360), R.uniform(-70, 70))
+    rot = R.choice([None, None, 0, 90, 180, 270, 90, 270, R.uniform(0, 360)])  # the common grid may be rotated on the sky (exactly 90/270: PCi_i = 0.0)
     order = list(range(len(rects)))
     R.shuffle(order)
     probs = []
@@ -207,7 +215,7 @@ def run_case(spec, workdir):
             if k in blobs:
                 src = mosaic.copy()
                 src[blobs[k]] = np.nan
-            p = fitsgen.write_piece(os.path.join(d, "piece%02d.fits" % k), src, r, ref, scale=scale, crval=crval, bottoms_up=bu, nan_border=nb)
+            p = fitsgen.write_piece(os.path.join(d, "piece%02d.fits" % k), src, r, ref, scale=scale, crval=crval, bottoms_up=bu, nan_border=nb, rot=rot)
             paths.append(p)
             x0, y0, w, h = r
             arr = np.array(src[y0:y0 + h, x0:x0 + w])
@@ -231,6 +239,12 @@ def run_case(spec, workdir):
     o1, i1, b1, recs1 = run_multi_tan(spec, paths, out1, spec["par"], spec["via"], os.path.join(workdir, "log1"), spec["profile"])
     if o1 == "watchdog":
         return dict(status="inconclusive", detail="watchdog")
+    if any(r["k"] == "worker_killed" for r in recs1):
+        # an input was never tiled: the operation must not come back as if it had done everything (nor wait for ever)
+        res = dict(counters=dict(mosaics=1, worker_kills=1), nontrivial=True, sample=dict(spec=spec, outcome=o1))
+        if o1 != "raised":
+            res.update(status="violation", key="multi-tan-%s-although-a-worker-was-killed" % o1, detail="the worker holding input %s was SIGKILLed, outcome %s %s" % (spec["kill_input"], o1, i1))
+        return res
     if o1 != "returned":
         return dict(status="violation", key="multi-tan-" + o1, detail="multi-TAN tiling outcome %s %s %s" % (o1, i1, [r.get("e") for r in recs1 if r["k"] == "stage_exc"]))
     # (a) the pasted mosaic as one study image
@@ -239,7 +253,7 @@ def run_case(spec, workdir):
     outs = os.path.join(workdir, "study")
     pio_s = PyramidIO(outs, default_format="fits")
     bs = Builder(pio_s)
-    hdr = fitsgen.tan_header(ref[0] + 1, ref[1] + 1, scale, crval, bottoms_up=False)
+    hdr = fitsgen.tan_header(ref[0] + 1, ref[1] + 1, scale, crval, bottoms_up=False, rot=rot)
     img = Image.from_array(pasted, wcs=WCS(hdr), default_format="fits")
     tiling = bs.prepare_study_tiling(img)
     bs.apply_wcs_info(img.wcs, img.width, img.height)
